@@ -132,6 +132,8 @@ def r05_2_3(prog, rep, direction):
             if slot is None:
                 rep.violated("R05.2", c.qualname, f.loc, f"self.{attr} is applied to members but the constructor does not resolve it from the type context by a type argument or hint", detail=attr)
                 continue
+            if slot.foreign:
+                rep.violated("R05.2", c.qualname, f.loc, f"self.{attr} may also hold {T.show(slot.foreign[0])[:80]}, which is not the routine the context holds for that type argument: members of some types are converted by another type's rules", detail=attr + "-foreign")
             if slot.kind == "dict":
                 good = slot.keyed_by is not None and slot.keyed_by[0] == "key" and T.refname(slot.keyed_by[1][1]) in K.HINTS
                 rep.check(good, "R05.2", c.qualname, f.loc, f"self.{attr}: field routines come from context[hint] and are stored under the hint's own field name", f"self.{attr}: field routines are not stored under the name of the hint they were resolved from", detail=attr)
